@@ -1279,6 +1279,9 @@ func (fr *oFrame) eval(e ast.Expr) oval {
 				return oPtr{s}
 			}
 			if c := fr.varCell(x.X); c != nil {
+				if st, isStruct := (*c).(*oStruct); isStruct && st != nil {
+					return oPtr{st} // &v of a struct variable (a package-level table entry, say)
+				}
 				return oRef{cell: c, typ: fr.info.TypeOf(x.X)}
 			}
 			if sel, ok := unparen(x.X).(*ast.SelectorExpr); ok {
@@ -1930,8 +1933,13 @@ func (fr *oFrame) call(call *ast.CallExpr) []oval {
 			} else if s := fr.structRef(sel.X); s != nil {
 				recv = oPtr{s}
 			} else if cell := fr.varCell(sel.X); cell != nil {
-				// a pointer-receiver method of an addressable variable of a named non-struct type
-				recv = oRef{cell: cell, typ: fr.info.TypeOf(sel.X)}
+				// a pointer-receiver method of an addressable variable: a struct (package-level,
+				// say) or a named non-struct type
+				if st, isStruct := (*cell).(*oStruct); isStruct && st != nil {
+					recv = oPtr{st}
+				} else {
+					recv = oRef{cell: cell, typ: fr.info.TypeOf(sel.X)}
+				}
 			} else {
 				return one(oTop{"receiver not addressable"})
 			}
